@@ -496,6 +496,12 @@ func (o *orbitDB) Create(ctx context.Context, name string, storeType string, opt
 		options = &CreateDBOptions{}
 	}
 
+	// the defaults and the decisions of this call (Overwrite when it comes from
+	// "open or create", the access controller address, the cache) are written
+	// into a copy: the caller's value may be used again, for another call
+	optionsCopy := *options
+	options = &optionsCopy
+
 	// The directory to look databases from can be passed in as an option
 	if options.Directory == nil {
 		options.Directory = &o.directory
@@ -540,6 +546,10 @@ func (o *orbitDB) Open(ctx context.Context, dbAddress string, options *CreateDBO
 	if options == nil {
 		options = &CreateDBOptions{}
 	}
+
+	// (see Create: nothing is written into the caller's options)
+	optionsCopy := *options
+	options = &optionsCopy
 
 	if options.Timeout == 0 {
 		options.Timeout = CBORReadDefaultTimeout
